@@ -11,7 +11,7 @@ m = json.load(open(f"{d}/meta.json"))
 prop = m["property"]
 env = dict(os.environ)
 env.setdefault("MUT_SLOT", "")
-out = subprocess.run(["/verif/tools/run_on_mutant.sh", f"{d}/patch.diff", prop], capture_output=True, text=True, env=env).stdout
+out = subprocess.run(["/verif/tools/run_on_mutant.sh", f"{d}/patch.diff", prop], capture_output=True, text=True, errors="replace", env=env).stdout
 lines = [l for l in out.splitlines() if "VIOLATION" in l or "quick:" in l]
 det = any("VIOLATION" in l for l in lines)
 prev = m.get("checks_run_on_mutant", {}).get(prop, {})
